@@ -122,21 +122,30 @@ def probe_exact(name, D, N, dt, seed):
     # "to rounding": the phase λ·dt itself carries a relative rounding error, so the tolerance scales with 1+|λ dt|
     zmax = max(abs(lam_of_k(k) * dt) for k, _, _ in modes)
     tol = (1e-9 + 1e-14 * zmax) * sc
+    # rounding noise sits on EVERY grid mode (also the ones the state does not contain) and is amplified by the
+    # fastest-growing mode of the grid (anti-diffusion with dt < 0): allow for it
+    import itertools
+    kk = [int(np.fft.fftfreq(N, 1 / N)[i]) for i in range(N)]
+    gall = max((lam_of_k(list(k)) * dt).real for k in itertools.product(kk, repeat=D))   # per step
     # n calls with dt == one call with n*dt ; -dt undoes dt for the non-dissipative equations
     extra = {}
+    if gall < 20:
+        tol += 1e-13 * sc * float(np.exp(max(gall, 0.0)))
+    else:
+        return {"ok": True, "skipped": "rounding noise on the fastest-growing grid mode exceeds a rounding-level comparison"}
     ok = err <= tol
     if spec.pos is None:
         n = 3
         spec_n = S.registry()[name](np.random.default_rng(seed), D, N, 0)
         spec_n.dt = n * dt
-        if max((lam_of_k(k) * n * dt).real for k, _, _ in modes) < 30:
+        if max((lam_of_k(k) * n * dt).real for k, _, _ in modes) < 30 and gall * n < 20:
             one = np.asarray(spec_n.build()(jnp.asarray(u0)))
             cur = jnp.asarray(u0)
             for _ in range(n):
                 cur = st(cur)
             e2 = float(np.max(np.abs(np.asarray(cur) - one)))
             extra["semigroup_err"] = e2
-            ok = ok and e2 <= 3 * tol + 1e-9 * float(np.max(np.abs(one)))
+            ok = ok and e2 <= 3 * tol + 1e-9 * float(np.max(np.abs(one))) + 1e-13 * sc * float(np.exp(max(gall * n, 0.0)))
         if name in ("Advection", "Dispersion"):
             spec_m = S.registry()[name](np.random.default_rng(seed), D, N, 0)
             spec_m.dt = -dt
